@@ -63,12 +63,16 @@ def _ok_binding(e, fi):
     return False
 
 
-def _is_template_encoding(model, fi, e, _depth=0):
+def _is_template_encoding(model, fi, e, _depth=0, _seen=None):
     """Does e denote the encoding of the template being compiled?  ->
     (bool, reason when not)"""
-    if e is None or _depth > 4:
+    if e is None or _depth > 6:
         return False, 'no encoding'
+    _seen = _seen if _seen is not None else set()
     s = norm(e)
+    if isinstance(e, ast.Constant):
+        # a literal fall-back ('latin-1') next to the real source
+        return True, ''
     if s == 'self.encoding':
         return True, ''
     if isinstance(e, ast.Call) and isinstance(e.func, ast.Name) and \
@@ -76,8 +80,14 @@ def _is_template_encoding(model, fi, e, _depth=0):
             norm(e.args[0]) == 'self' and norm(e.args[1]) == "'encoding'":
         return True, ''
     if isinstance(e, ast.Name):
+        if e.id in _seen:
+            return True, ''
+        _seen = _seen | {e.id}
         defs = model.local_defs(fi, e.id)
         if not defs:
+            r_ = model.resolve_global(fi.module, e.id)
+            if r_ is not None:
+                return True, ''      # module constant (DEFAULT_ENCODING)
             return False, f'`{e.id}` is not bound from the template'
         for d in defs:
             if d == 'param':
@@ -86,9 +96,11 @@ def _is_template_encoding(model, fi, e, _depth=0):
                 continue
             if not isinstance(d, ast.AST):
                 return False, f'`{e.id}` is bound in a way not followed'
-            ok, why = _is_template_encoding(model, fi, d, _depth + 1)
+            ok, why = _is_template_encoding(model, fi, d, _depth + 1, _seen)
             if not ok:
                 return False, why
+        return True, ''
+    if isinstance(e, ast.Attribute) and norm(e).endswith('_ENCODING'):
         return True, ''
     if isinstance(e, ast.Attribute) and e.attr == 'encoding' and \
             isinstance(e.value, ast.Name):
@@ -119,12 +131,13 @@ def _is_template_encoding(model, fi, e, _depth=0):
                             'belong to')
             return True, ''
         return False, f'`{s}` is not the encoding of this template'
-    if isinstance(e, ast.BoolOp):
-        for v in e.values:
-            ok, why = _is_template_encoding(model, fi, v, _depth + 1)
-            if ok:
-                return True, ''
-        return False, f'`{s}`'
+    if isinstance(e, (ast.BoolOp, ast.IfExp)):
+        vals = e.values if isinstance(e, ast.BoolOp) else [e.body, e.orelse]
+        for v in vals:
+            ok, why = _is_template_encoding(model, fi, v, _depth + 1, _seen)
+            if not ok:
+                return False, why
+        return True, ''
     return False, f'`{s}` is not derived from the template\'s encoding'
 
 
@@ -189,6 +202,18 @@ def rule_threading(model):
             n_sites += 1
             e = _encoding_arg(n, callees[0])
             ok = _ok_binding(e, fi)
+            if ok and e is not None:
+                ok2, why = _is_template_encoding(model, fi, e)
+                if not ok2:
+                    rb.instance(fi.where, n, f'encoding={norm(e)}: {why}')
+                    rb.finding(fi.where, n, f'the encoding handed to '
+                               f'{callees[0].where} is not (only) the '
+                               f'encoding of the template: {why}; bytes '
+                               'are decoded with whatever that source '
+                               'holds at the time (another template\'s '
+                               'encoding after a sub-template ran)',
+                               node=n, ctx=fi)
+                    continue
             rb.instance(fi.where, n, f'encoding={norm(e)}' if e is not None
                         else 'NO encoding')
             if not ok:
@@ -493,6 +518,33 @@ def rule_decoders(model):
                               'decoded afterwards (later pieces of the same '
                               'join) are decoded with a different encoding '
                               'than the template\'s', node=n, ctx=fi)
+    # anywhere in the package: bytes are decoded one value at a time
+    for fi in model.all_funcs():
+        for d in own_nodes(fi.node):
+            if isinstance(d, ast.Call) and isinstance(
+                    d.func, ast.Attribute) and d.func.attr == 'decode':
+                recv = d.func.value
+                combo = (isinstance(recv, ast.Call) and isinstance(
+                    recv.func, ast.Attribute) and
+                    recv.func.attr == 'join') or (
+                    isinstance(recv, ast.BinOp) and
+                    isinstance(recv.op, ast.Add))
+                if fi.module.short in ('html_quote', '_DocumentTemplate',
+                                       'DT_In', 'DT_Var', 'DT_Util',
+                                       'TreeTag', 'DT_Try', 'DT_With',
+                                       'DT_Let', 'DT_If', 'ustr'):
+                    r.instance(fi.where, d, 'one value' if not combo
+                               else 'COMBINATION DECODED')
+                if combo and fi.where not in (
+                        'html_quote:html_quote',
+                        '_DocumentTemplate:join_unicode'):
+                    r.finding(fi.where, d, 'several rendered pieces are '
+                              'concatenated as bytes and decoded in one '
+                              'call: with an encoding that has a byte-order '
+                              'mark or state (UTF-16) every piece after the '
+                              'first keeps its mark as a stray character; '
+                              'each bytes value must be decoded on its own',
+                              node=d, ctx=fi)
     # join_unicode: only bytes elements are decoded, order kept
     ju = model.func('_DocumentTemplate', 'join_unicode')
     src = ast.unparse(ju.node)
